@@ -271,6 +271,12 @@ def pool_a():
                 spec = {}
             return dict(c08.SHAPE_TARGET), Fill(spec), None
         out.append(('c08', mk))
+    # argument lists / keyword dicts taken from the target must not be extended in place
+    from glom import Invoke, T as T_
+    star = Invoke(lambda *a, **kw: None)
+    out.append(('invoke-star-args', lambda: ({'l': [1, 2], 'd': {'k': 1}}, star.star(args=T_['l']).constants(9).specs(T_['l']), None)))
+    out.append(('invoke-star-kwargs', lambda: ({'l': [1, 2], 'd': {'k': 1}}, star.star(kwargs=T_['d']).constants(z=1), None)))
+    out.append(('invoke-star-both', lambda: ({'l': [1, 2], 'd': {'k': 1}}, star.star(args=T_['l'], kwargs=T_['d']).star(args=T_['l']).specs(j=T_['l']), None)))
     # caller scope
     from glom import S, T, Coalesce
     out.append(('scope-read', lambda: ({'a': 1}, (S.x, T), {'x': [1, {'y': 2}]})))
@@ -335,5 +341,5 @@ def subs(tier, only=None):
         out.append(Sub('frame-condition', list(range(len(get_pool_a()))), run_frame,
                        rule='case = non-mutating (target, spec, scope) triple from the generators of eight other checks; identity-preserving deep '
                             'snapshots of target, spec object graph and caller scope before / after two evaluations',
-                       min_nontrivial=300, min_outcomes=4, required_tags=['pool', 'c03', 'c08', 'c09', 'c10', 'c14', 'c15', 'c16', 'c17']))
+                       min_nontrivial=300, min_outcomes=4, required_tags=['pool', 'c03', 'c08', 'c09', 'c10', 'c14', 'c15', 'c16', 'c17', 'invoke-star-args']))
     return out
